@@ -26,3 +26,66 @@ package engine
 //@ loop 1
 //@   invariant forall k int :: 0 <= k && k <= $i ==> node.(*definition.node).exits[k].(*definition.exit).uuid != exitUUID
 //@   invariant step.(*runs.step).exitUUID == exitUUID
+
+// ---- C10: rejected resumes leave the session untouched; unrecoverable conditions fail it cleanly
+// every run of the session is a *runs.run with a usable path
+//@ pred waitOK(w flows.Wait) bool := isnil(w) || (typeis(w, *waits.MsgWait) && w.(*waits.MsgWait) != nil) || (typeis(w, *waits.DialWait) && w.(*waits.DialWait) != nil)
+//@ pred routerRep(rt flows.Router) bool := isnil(rt) || (typeis(rt, *routers.SwitchRouter) && rt.(*routers.SwitchRouter) != nil && waitOK(rt.(*routers.SwitchRouter).wait)) || (typeis(rt, *routers.RandomRouter) && rt.(*routers.RandomRouter) != nil && waitOK(rt.(*routers.RandomRouter).wait))
+//@ pred nodeRep(n flows.Node) bool := isnil(n) || (typeis(n, *definition.node) && n.(*definition.node) != nil && routerRep(n.(*definition.node).router))
+// a loaded flow: every node in the node index is a well-formed node (ReadFlow builds the index from validated nodes)
+//@ pred FlowRep(f *definition.flow) bool opaque := f != nil && (forall u flows.NodeUUID {rawget(f.nodeMap, u)} :: in(u, f.nodeMap) ==> nodeRep(rawget(f.nodeMap, u)))
+//@ pred resumeOK(r flows.Resume) bool := (typeis(r, *resumes.MsgResume) && r.(*resumes.MsgResume) != nil) || (typeis(r, *resumes.DialResume) && r.(*resumes.DialResume) != nil) || (typeis(r, *resumes.RunExpirationResume) && r.(*resumes.RunExpirationResume) != nil) || (typeis(r, *resumes.WaitTimeoutResume) && r.(*resumes.WaitTimeoutResume) != nil)
+//@ pred runRep(r *runs.run) bool opaque := r != nil && (r.path == nil || len(r.path) > 0) && (forall j int {r.path[j]} :: (0 <= j && j < len(r.path)) ==> (typeis(r.path[j], *runs.step) && r.path[j].(*runs.step) != nil)) && (isnil(r.flow) || (typeis(r.flow, *definition.flow) && FlowRep(r.flow.(*definition.flow))))
+//@ pred runsOK(s *session) bool := s != nil && (forall k int {s.runs[k]} :: (0 <= k && k < len(s.runs)) ==> (typeis(s.runs[k], *runs.run) && s.runs[k].(*runs.run) != nil && runRep(s.runs[k].(*runs.run))))
+//@ pred noneActiveOrWaiting(s *session) bool := forall k int :: 0 <= k && k < len(s.runs) ==> (s.runs[k].(*runs.run).status != flows.RunStatusActive && s.runs[k].(*runs.run).status != flows.RunStatusWaiting)
+// the state a caller persists (session JSON) is untouched: session, run, step and contact fields (transient fields excluded)
+//@ pred persistedUntouched() bool := unchanged("session::uuid", "session::type_", "session::env", "session::trigger", "session::contact", "session::runs", "session::status", "session::input", "runs.run::uuid", "runs.run::flowRef", "runs.run::flow", "runs.run::parent", "runs.run::results", "runs.run::path", "runs.run::events", "runs.run::status", "runs.run::createdOn", "runs.run::modifiedOn", "runs.run::exitedOn", "runs.step::*", "flows.Contact::*", "flows.GroupList::groups", "elems[flows.Run]", "elems[flows.Step]", "elems[flows.Event]")
+
+//@ func (s *session) countWaits
+//@   pure
+//@   reads session::runs, elems[flows.Run], runs.run::events, elems[flows.Event]
+
+//@ func (s *session) waitingRun
+//@   pure
+//@   reads session::runs, elems[flows.Run], runs.run::status
+//@   requires runsOK(s)
+//@   ensures [is_waiting] !isnil(result) ==> (typeis(result, *runs.run) && result.(*runs.run) != nil && runRep(result.(*runs.run)) && result.(*runs.run).status == flows.RunStatusWaiting && (exists k int :: 0 <= k && k < len(s.runs) && s.runs[k] == result))
+//@   witness [is_waiting] k := $i1 + 1
+//@   ensures [none_waiting] isnil(result) ==> (forall k int :: 0 <= k && k < len(s.runs) ==> s.runs[k].(*runs.run).status != flows.RunStatusWaiting)
+//@ loop 1
+//@   invariant forall k int :: 0 <= k && k <= $i ==> s.runs[k].(*runs.run).status != flows.RunStatusWaiting
+
+// failSession: fails the waiting run with a failure event in both logs, exits every run that is still active or waiting, fails the session
+//@ func (s *session) tryToResume$1
+//@   requires runsOK(s) && sprint != nil && typeis(waitingRun, *runs.run) && waitingRun.(*runs.run) != nil && runRep(waitingRun.(*runs.run))
+//@   assigns computed
+//@   ensures [session_failed] s.status == flows.SessionStatusFailed
+//@   ensures [all_exited] noneActiveOrWaiting(s)
+//@   ensures [failure_logged] len(sprint.events) == old(len(sprint.events)) + 1 && typeis(sprint.events[len(sprint.events) - 1], *events.FailureEvent)
+//@   ensures [runs_kept] s.runs == old(s.runs) && runsOK(s)
+//@ loop 1
+//@   invariant s.runs == old(s.runs) && runsOK(s)
+//@   invariant forall k int :: 0 <= k && k <= $i ==> (s.runs[k].(*runs.run).status != flows.RunStatusActive && s.runs[k].(*runs.run).status != flows.RunStatusWaiting)
+//@   invariant len(sprint.events) == old(len(sprint.events)) + 1 && typeis(sprint.events[len(sprint.events) - 1], *events.FailureEvent)
+
+// engine errors (*Error) are only built by newError, which only Resume and tryToResume call (structural checks
+// callers_subset / allocs_subset), so the execution loop never returns one
+//@ func (s *session) continueUntilWait
+//@   trusted
+//@   assigns computed
+//@   ensures [no_engine_error] !typeis(result, *Error)
+
+//@ func (s *session) tryToResume
+//@   nopanic until Apply
+//@   havocs ensureQueryBasedGroups, findResumeExit
+//@   requires runsOK(s) && sprint != nil && resumeOK(resume) && !isnil(s.engine) && EngRep(s.engine) && typeis(waitingRun, *runs.run) && waitingRun.(*runs.run) != nil && runRep(waitingRun.(*runs.run)) && (exists k int :: 0 <= k && k < len(s.runs) && s.runs[k] == waitingRun)
+//@   ensures [rejected_untouched] typeis(result, *Error) ==> (persistedUntouched() && sprint.events == old(sprint.events) && result.(*Error).code == ErrorResumeRejectedByWait)
+//@   ensures [missing_flow_fails] old(isnil(waitingRun.(*runs.run).flow)) ==> (isnil(result) && s.status == flows.SessionStatusFailed && noneActiveOrWaiting(s) && len(sprint.events) == old(len(sprint.events)) + 1 && typeis(sprint.events[len(sprint.events) - 1], *events.FailureEvent))
+//@   ensures [resume_limit_fails] old(!isnil(waitingRun.(*runs.run).flow) && s.countWaits() >= s.engine.(*engine).options.MaxResumesPerSession) ==> (isnil(result) && s.status == flows.SessionStatusFailed && noneActiveOrWaiting(s) && len(sprint.events) == old(len(sprint.events)) + 1 && typeis(sprint.events[len(sprint.events) - 1], *events.FailureEvent))
+
+//@ func (s *session) Resume
+//@   requires runsOK(s) && resumeOK(resume) && !isnil(s.engine) && EngRep(s.engine)
+//@   checks [error_untouched] typeis(result1, *Error) ==> persistedUntouched()
+//@   checks [no_events_on_error] typeis(result1, *Error) ==> (isnil(result0) || len(result0.(*sprint).events) == 0)
+//@   checks [codes] typeis(result1, *Error) ==> (result1.(*Error).code == ErrorResumeNonWaitingSession || result1.(*Error).code == ErrorResumeNoWaitingRun || result1.(*Error).code == ErrorResumeRejectedByWait)
+//@   checks [not_waiting_rejected] old(s.status) != flows.SessionStatusWaiting ==> !isnil(result1)
